@@ -779,6 +779,8 @@ func (e *Env) callExpr(ex *ast.CallExpr, hint types.Type) Val {
 				}
 			}
 			return Val{T: boolT, S: fmt.Sprintf("(%s (%s) %s)", q, strings.Join(binders, " "), inner)}
+		case "held": // ghost: the package's mutex is held
+			return Val{T: boolT, S: c.region(e.st, "$held")}
 		case "tpos": // ghost: number of input bytes delivered by the underlying readers so far
 			return Val{T: intT, S: c.fromIdx(intT, c.region(e.st, "$tpos"))}
 		case "tape": // ghost: the k-th byte of the input tape
